@@ -1,7 +1,24 @@
-(* Entry point of the extracted model for property C01: run_C01 case = observation. *)
+(* Entry point of the extracted model for property C01: a muxer history (as in RunMux.v), whose output bytes are
+   then demultiplexed (NextData until ErrNoMorePackets, seekable reader, packet size 188).
+   case        = (period (op ...))
+   observation = (per-call (code n) of the muxer, then the demux observation of RunDemux.v) *)
 From Coq Require Import ZArith List.
-Require Import Base.Tok Base.Iter Extract.RunBase.
+Require Import Base.Tok Base.Iter Gen.Types Model.Muxer Model.Reader Model.Demux Model.DemuxFull
+  Extract.RunBase Extract.RunDemux Extract.RunMux.
 Import ListNotations.
 Open Scope Z_scope.
 
-Definition run_C01 (t : tok) : tok := TL [].
+Fixpoint mux_all (s : mstate) (ops : list mop) : list tok * list Z :=
+  match ops with
+  | [] => ([], [])
+  | o :: r =>
+      let '(s', out) := mux_step s o in
+      let '(ts, bs) := mux_all s' r in
+      (TL [TI (code_of_res (mo_res out)); TI (match mo_res out with Panic => 0 | _ => mo_n out end)] :: ts,
+       mout_bytes out ++ bs)
+  end.
+
+Definition run_C01 (t : tok) : tok :=
+  let '(calls, bytes) := mux_all (new_muxer (tI (tnth 0 t))) (map mop_of_tok (tL (tnth 1 t))) in
+  let scen := TL [TI 1; TI 188; TI (-1); TL []; TL [TI 0]; TL [TI 0]; TB bytes; TL [TI 3]] in
+  TL [TL calls; run_demux full_parsers scen].
